@@ -376,6 +376,8 @@ type Dialer struct {
 	OnConn func(c *Conn)
 	// PerConn, when set, supplies the options per connection id (overrides C2S / S2C).
 	PerConn func(id int) (c2s, s2c StreamOpts)
+	// Delay: establishing a connection takes this long (virtual)
+	Delay time.Duration
 }
 
 func (n *Net) findListener(a *net.TCPAddr) *Listener {
@@ -392,6 +394,9 @@ func (n *Net) findListener(a *net.TCPAddr) *Listener {
 
 func (d Dialer) DialContext(ctx context.Context, network, address string) (net.Conn, error) {
 	vsched.Yield()
+	if d.Delay > 0 {
+		vsched.Sleep(d.Delay)
+	}
 	a, err := net.ResolveTCPAddr("tcp", address)
 	if err != nil {
 		return nil, err
@@ -635,9 +640,13 @@ func (f PacketFactory) ListenPacket(ctx context.Context, network, address string
 type PacketDialer struct {
 	N      *Net
 	Source net.IP
+	Delay  time.Duration // creating the socket takes this long (virtual)
 }
 
 func (d PacketDialer) ListenPacket(ctx context.Context, network, laddr, raddr string) (net.PacketConn, error) {
+	if d.Delay > 0 {
+		vsched.Sleep(d.Delay)
+	}
 	d.N.nextPort++
 	src := d.Source
 	if src == nil {
